@@ -17,14 +17,18 @@ from common import Case, sx
 PROP = "C14"
 RULE = ("scenario = <=2 root runs (event trigger or service call, launched at grid instants) + task.create children, "
         "<=4 plan tasks (+ the controller task that injects cancels), plans of sleep / create / add_done_callback / "
-        "remove_done_callback / wait / cancel (self or other) / task.unique / raise; callbacks of 4 kinds (return, raise, "
+        "remove_done_callback / wait / cancel (self or other) / task.unique / task.sleep(0) (a pure hand-over: every task "
+        "created before it must have started when it returns) / raise; callbacks of 4 kinds (return, raise, "
         "sleep-then-return, register-another-callback-on-own-task).  Fault plan: the dry run, plus for every statically "
         "enumerated suspension point (every sleep/wait step, every sleeping callback) one run that raises right after "
         "it and one run in which a controller task calls task.cancel(target) while the target is suspended there (time "
         "taken from a dry run).  Every (scenario, fault) runs under legacy_decorators True and False.  Directed "
         "scenarios cover the DESIGN section-6 shapes (#19 first callback raises, #24 callback on a service task, cancel "
         "inside a callback, callback that resizes the dict - all four fixed in /repo and now expected to behave, cancel "
-        "before the first segment).  Distinct by payload.")
+        "before the first segment).  A second family runs OVERLAPPING runs of one function - calls of one @service "
+        "(blocking, return_response), occurrences of one trigger, task.create of one function - each run carrying its "
+        "own arguments in local variables across a sleep and reporting / returning them afterwards; nested, non-nested "
+        "(the first sleeper wakes while the second still sleeps) and sequential timings.  Distinct by payload.")
 ASSUMPTIONS = [
     "asyncio is cooperative: code between two awaits is atomic; Task.cancel() is delivered at the task's next resumption",
     "asyncio.Queue is FIFO (reaper queue); asyncio.wait returns when its tasks are done",
@@ -119,6 +123,10 @@ def runner(i):
                     rec('typeerror', i, j)
         elif k == 'uniq':
             task.unique(st[1])
+        elif k == 'yield':
+            task.sleep(0)
+            if FAULT == ['raise', 'step', i, j]:
+                raise ValueError('fault')
         elif k == 'raise':
             raise ValueError('boom')
         rec('a', i, j)
@@ -133,6 +141,37 @@ def launch(i=None):
 @service
 def svc(i=None):
     return runner(i)
+
+@service(supports_response="optional")
+def work(tag=None, delay=None):
+    mine = tag
+    keep = delay
+    rec('w-in', 'svc', tag, delay)
+    task.sleep(delay * GRID)
+    rec('w-out', 'svc', tag, delay, mine, keep)
+    return {{"tag": tag, "mine": mine, "delay": delay, "keep": keep}}
+
+@event_trigger('tw')
+def twork(tag=None, delay=None):
+    mine = tag
+    keep = delay
+    rec('w-in', 'trig', tag, delay)
+    task.sleep(delay * GRID)
+    rec('w-out', 'trig', tag, delay, mine, keep)
+
+def cwork(tag, delay):
+    mine = tag
+    keep = delay
+    rec('w-in', 'create', tag, delay)
+    task.sleep(delay * GRID)
+    rec('w-out', 'create', tag, delay, mine, keep)
+    return [tag, mine, delay, keep]
+
+@event_trigger('spawn')
+def spawn(tag=None, delay=None):
+    t = task.create(cwork, tag, delay)
+    task.wait({{t}})
+    rec('c-res', tag, t.result())
 
 @event_trigger('ctl')
 def ctl(target=None):
@@ -150,7 +189,8 @@ def ctl(target=None):
 def horizon(p):
     tot = sum(st[1] for pl in p["plans"] for st in pl if st[0] == "sleep")
     tot += sum(v[1] for v in p["cbs"].values() if v[0] == "slow") * 2
-    return max(l[0] for l in p["launch"]) + tot + 4
+    calls = p.get("calls") or []
+    return max([l[0] for l in p["launch"]] + [c[0] + c[3] for c in calls] + [0]) + tot + 4
 
 
 # ------------------------------------------------------------------ one run on the real code
@@ -197,6 +237,7 @@ async def _body(env, p, fault, when):
 
     loop = env.loop
     trace = []
+    responses = []
     phase = {}
     depth = {}
     udepth = [0]
@@ -386,6 +427,25 @@ async def _body(env, p, fault, when):
 
         for inst, kind, i in p["launch"]:
             loop.call_at(base + inst * GRID, fire, kind, i)
+
+        async def svc_call(tag, delay):
+            try:
+                r = await env.hass.services.async_call("pyscript", "work", {"tag": tag, "delay": delay},
+                                                       blocking=True, return_response=True)
+            except Exception as e:  # pylint: disable=broad-except
+                r = f"exc:{type(e).__name__}"
+            responses.append([tag, r])
+
+        def call(how, tag, delay):
+            if how == "svc":
+                loop.create_task(svc_call(tag, delay))
+            elif how == "trig":
+                env.hass.bus.async_fire("tw", {"tag": tag, "delay": delay})
+            else:
+                env.hass.bus.async_fire("spawn", {"tag": tag, "delay": delay})
+
+        for inst, how, tag, delay in p.get("calls") or []:
+            loop.call_at(base + inst * GRID, call, how, tag, delay)
         if when is not None:
             loop.call_at(base + when[0] - (base - loop.T0), lambda: env.hass.bus.async_fire("ctl", {"target": when[1]}))
 
@@ -414,7 +474,9 @@ async def _body(env, p, fault, when):
         Function.task_unique_factory = saved["task_unique_factory"]
         Function.ast_functions["task.unique"] = saved["ast_unique"]
         AstEval.call_func = saved["call_func"]
-    return _canon(p, trace, env.records)
+    out = _canon(p, trace, env.records)
+    out["resp"] = responses
+    return out
 
 
 def _canon(p, trace, records):
@@ -526,6 +588,8 @@ def _canon(p, trace, records):
             log.append([r[0], "end", r[2]])
         elif tag == "cb":
             log.append([r[0], "cb", r[2], r[3]])
+    wlog = [[r[0]] + [x if isinstance(x, (int, float, str, list, dict, type(None))) else str(type(x).__name__)
+                      for x in r[1:]] for r in records if r[1] in ("w-in", "w-out", "c-res")]
     # records with task -> plan index for the fault-time lookup
     start_of = {}
     for r in records:
@@ -537,7 +601,7 @@ def _canon(p, trace, records):
             rec2.append((r[0], "cbs", r[2], start_of.get(r[3], -1)))
         elif r[1] in ("b", "a"):
             rec2.append((r[0], r[1], r[2], r[3]))
-    return {"impl": "ok " + " ".join(toks), "line": line, "log": log, "records": rec2, "info": info}
+    return {"impl": "ok " + " ".join(toks), "line": line, "log": log, "records": rec2, "info": info, "wlog": wlog}
 
 
 # ------------------------------------------------------------------ verdict: the property on the recorded run
@@ -583,6 +647,57 @@ def _related(p, target):
             rel.add(x)
             todo += list(adj[x])
     return rel
+
+
+def handover_problem(p, log):
+    """task.sleep(0) is a hand-over: a task created (task.create returned) before the sleep began has run its first
+    segment - it has written its 'start' marker - when the sleep returns (asyncio runs ready tasks first in, first out)"""
+    pending, waiting = set(), {}
+    for e in log:
+        tag = e[1]
+        if tag == "start":
+            pending.discard(e[2])
+        elif tag in ("b", "a"):
+            i, j = e[2], e[3]
+            st = p["plans"][i][j]
+            if tag == "a" and st[0] == "create":
+                pending.add(st[1])
+            elif tag == "b" and st[0] == "yield":
+                waiting[i] = set(pending)
+            elif tag == "a" and st[0] == "yield":
+                late = waiting.pop(i, set()) & pending
+                if late:
+                    return f"yield-did-not-hand-over task={i} step={j} not-started={sorted(late)}"
+    return None
+
+
+def overlap_problem(p, wlog, resp):
+    """every run of the overlapping family reports exactly its own arguments / locals, at its own time, and returns them"""
+    calls = p.get("calls") or []
+    if not calls:
+        return None
+    ins = [e for e in wlog if e[1] == "w-in"]
+    outs = [e for e in wlog if e[1] == "w-out"]
+    if len(ins) != len(calls) or len(outs) != len(calls):
+        return f"overlapping-runs-mixed-up {len(ins)} runs entered, {len(outs)} reported, {len(calls)} launched"
+    for inst, how, tag, delay in calls:
+        a = [e for e in ins if e[2:] == [how, tag, delay]]
+        b = [e for e in outs if e[3] == tag]
+        if len(a) != 1 or len(b) != 1:
+            return f"overlapping-runs-mixed-up run tag={tag}: entered {len(a)}x, reported {len(b)}x"
+        if b[0][2:] != [how, tag, delay, tag, delay]:
+            return f"overlapping-runs-mixed-up run tag={tag} reported {b[0][2:]}"
+        if abs((b[0][0] - a[0][0]) - delay * GRID) > 0.0015:
+            return f"overlapping-runs-mixed-up run tag={tag} woke after {round(b[0][0] - a[0][0], 4)}s, slept {delay * GRID}s"
+        if how == "svc":
+            got = [x[1] for x in resp if x[0] == tag]
+            if got != [{"tag": tag, "mine": tag, "delay": delay, "keep": delay}]:
+                return f"overlapping-runs-mixed-up service call tag={tag} returned {got}"
+        if how == "create":
+            got = [e[3] for e in wlog if e[1] == "c-res" and e[2] == tag]
+            if got != [[tag, tag, delay, delay]]:
+                return f"overlapping-runs-mixed-up task.create run tag={tag} returned {got}"
+    return None
 
 
 def verdict(c):
@@ -640,8 +755,16 @@ def verdict(c):
             if a != b:
                 problems.append(f"independence task={i} differs from the dry run")
                 break
+    ho = handover_problem(c.payload, r["log"])
+    if ho:
+        problems.insert(0, "independence:" + ho)
+    ov = overlap_problem(c.payload, r.get("wlog", []), r.get("resp", []))
+    if ov:
+        problems.insert(0, "independence:" + ov)
     if not problems:
         return None
+    if ho or ov:
+        return "; ".join(problems)
     # order: root causes first
     if info["cbe_can"]:
         return "finally-aborted:cancel-inside-callback " + "; ".join(problems)
@@ -677,6 +800,8 @@ def faults_of(p):
             if st[0] in ("sleep", "wait"):
                 fs.append(["raise", "step", i, j])
                 fs.append(["cancel", "step", i, j])
+            elif st[0] == "yield":
+                fs.append(["raise", "step", i, j])      # zero-length suspension: no instant at which to cancel
     used = {st[2] for pl in p["plans"] for st in pl if st[0] == "addcb"}
     for cid, spec in p["cbs"].items():
         if spec[0] == "slow" and int(cid) in used:
@@ -735,7 +860,33 @@ def directed():
     # task.unique displaces a run that has callbacks
     S.append({"plans": [[["uniq", "n"], ["addcb", 0, 2, 1], ["addcb", 0, 3, 2], ["sleep", 4]], [["uniq", "n"], ["sleep", 2]]],
               "cbs": cbs, "launch": [[0, "trig", 0], [1, "trig", 1]]})
+    # task.sleep(0): the creator hands over to the task it has just created; two loopers take turns
+    S.append({"plans": [[["create", 1], ["yield"], ["yield"], ["addcb", 1, 2, 1], ["sleep", 1]], [["yield"], ["sleep", 1]]],
+              "cbs": cbs, "launch": [[0, "trig", 0]]})
+    S.append({"plans": [[["create", 1], ["create", 2], ["yield"], ["wait", 1]], [["yield"], ["yield"], ["yield"]],
+                        [["yield"], ["yield"], ["yield"]]], "cbs": cbs, "launch": [[0, "svc", 0]]})
+    S.append({"plans": [[["create", 1], ["yield"], ["cancel", 1], ["sleep", 1]], [["sleep", 2]]],
+              "cbs": cbs, "launch": [[0, "trig", 0]]})
     return S
+
+
+def overlap_scenarios(rng, n):
+    """overlapping runs of ONE function; calls = [instant, how, tag, delay]"""
+    cbs = {"1": ["ok"], "2": ["ok"], "3": ["ok"], "4": ["ok"]}
+    out = []
+    for how in ("svc", "trig", "create"):
+        # non-nested overlap (first sleeper wakes while the second still sleeps), nested, sequential, same instant
+        for shape in ([[0, 2], [1, 4]], [[0, 4], [1, 1]], [[0, 1], [2, 1]], [[0, 2], [0, 3]],
+                      [[0, 3], [1, 3], [2, 3]]):
+            out.append({"plans": [], "cbs": cbs, "launch": [],
+                        "calls": [[inst, how, 11 + k, d] for k, (inst, d) in enumerate(shape)]})
+    for _ in range(n):
+        k = rng.randrange(2, 5)
+        same = rng.choice(["svc", "svc", "trig", "create", None])
+        calls = [[rng.randrange(0, 3), same or rng.choice(["svc", "trig", "create"]), 21 + j, rng.randrange(1, 5)]
+                 for j in range(k)]
+        out.append({"plans": [], "cbs": cbs, "launch": [], "calls": calls})
+    return out
 
 
 def random_scenario(rng):
@@ -751,13 +902,17 @@ def random_scenario(rng):
         steps = []
         for c in kids:
             steps.append(["create", c])
+            if rng.random() < 0.3:
+                steps.append(["yield"])
             for _ in range(rng.randrange(0, 3)):
                 steps.append(["addcb", c, rng.randrange(1, 5), rng.randrange(1, 9)])
             if rng.random() < 0.3:
                 steps.append(["rmcb", c, rng.randrange(1, 5)])
         for _ in range(rng.randrange(1, 4)):
             r = rng.random()
-            if r < 0.45:
+            if r < 0.12:
+                steps.append(["yield"])
+            elif r < 0.45:
                 steps.append(["sleep", rng.randrange(1, 3)])
             elif r < 0.6:
                 steps.append(["addcb", rng.randrange(ntask), rng.randrange(1, 5), rng.randrange(1, 9)])
@@ -790,6 +945,8 @@ def gen_cases(rng, tier, search):
         cases += expand(s, ("directed",))
     for _ in range(n):
         cases += expand(random_scenario(rng), ("random",))
+    for s in overlap_scenarios(rng, 6 if tier == "quick" else 120):
+        cases += expand(s, ("overlap",))
     return cases
 
 
@@ -855,5 +1012,9 @@ def extra_coverage(cases):
             elif t.startswith("x:"):
                 kk = "x:" + t.split(":")[1]
                 toks[kk] = toks.get(kk, 0) + 1
-    return {"fault_kinds": faults, "plan_steps": steps, "callback_kinds": cbk, "observed_step_outcomes": toks,
+    ov = {}
+    for c in cases:
+        for call in c.payload.get("calls") or []:
+            ov[call[1]] = ov.get(call[1], 0) + 1
+    return {"overlapping_runs_by_kind": ov, "fault_kinds": faults, "plan_steps": steps, "callback_kinds": cbk, "observed_step_outcomes": toks,
             "fault_points_not_reached": sum(1 for c in cases if (c.impl or "").startswith("fault-point-not"))}
